@@ -11,6 +11,15 @@ EXPECT = [
     ("c = make(chan int64, 1); c <- 5; close(c); a = (<-c); b = (<-c); [a, b]", "[i:5,nil]", "buffered values are still delivered after close, then nil"),
     ("c = make(chan int64, 1); c <- 5; close(c); v = 0; v, ok = <-c; a = [v, ok]; v, ok = <-c; [a, v, ok]", "[[i:5,b:true],i:5,b:false]",
      "the two-value receive sets ok to false and leaves the value variable untouched"),
+    ("c = make(chan interface, 3); c <- 1; c <- nil; c <- 3; close(c); r = []; for x in c { r += [x] }; r", "[i:1,nil,i:3]",
+     "a nil sent on a channel of interface values is a message like any other: for-in goes on until the channel is closed"),
+    ("c = make(chan interface); d = make(chan interface); go func() { for x in [1, nil, nil, 4] { c <- x }; close(c) }(); "
+     "go func() { for x in c { d <- x }; close(d) }(); r = []; for x in d { r += [x] }; r", "[i:1,nil,nil,i:4]",
+     "nil messages travel through a pipeline of for-in stages like any other value"),
+    ("c = make(chan interface, 2); c <- nil; c <- 5; r = []; for { v, ok = <- c; r += [v, ok]; if len(r) > 3 { break } }; r", "[nil,b:true,i:5,b:true]",
+     "a received nil with ok true is a message, not the end of the channel"),
+    ("c = make(chan interface, 2); c <- nil; close(c); n = 0; for x in c { n++ }; v, ok = <- c; [n, ok]", "[i:1,b:false]",
+     "for-in delivers a nil message once and ends at the close"),
     ("c = make(chan int64, 1); close(c); ok = true; if true { v, ok = <- c }; ok", "b:false",
      "the two-value receive sets the ok variable it names, also from a nested block"),
     ("c = make(chan int64, 1); c <- 5; close(c); ok = false; v = 0; func f() { v, ok = <- c }; f(); a = [v, ok]; f(); [a, v, ok]", "[[i:5,b:true],i:5,b:false]",
